@@ -82,4 +82,177 @@ theorem rowsOk_iff_run (A : Dfa) (off : Nat) (hoff : 0 < off) : ∀ (bytes outs 
             refine ⟨t + off, Or.inr (Or.inl ⟨s, b, t, m, hl, rfl⟩), ?_⟩
             exact (ih ms t hbs).mpr ⟨q', hr, hf⟩
 
+/-! ## The emitted table and layout -/
+
+set_option linter.unusedSimpArgs false
+
+theorem mem_transRows_iff (A : Dfa) (off : Nat) (row : Nat × Nat × Nat × Nat) :
+    row ∈ transRows A off ↔
+      ∃ s b t m, A.lookup s b = some (t, m) ∧ row = (s + off, b, t + off, m) := by
+  simp only [transRows, List.mem_filterMap, List.mem_range]
+  constructor
+  · rintro ⟨i, hi, h⟩
+    cases hj : (A.tbl[i]?).join with
+    | none => simp [hj] at h
+    | some tm =>
+      obtain ⟨t, m⟩ := tm
+      simp only [hj, Option.some.injEq] at h
+      refine ⟨i / 256, i % 256, t, m, ?_, h.symm⟩
+      have hlt : i % 256 < 256 := Nat.mod_lt _ (by decide)
+      have hi' : i / 256 * 256 + i % 256 = i := by omega
+      simp [Dfa.lookup, hlt, hi', hj]
+  · rintro ⟨s, b, t, m, hl, rfl⟩
+    unfold Dfa.lookup at hl
+    split at hl
+    · rename_i hb
+      refine ⟨s * 256 + b, ?_, ?_⟩
+      · cases hg : A.tbl[s * 256 + b]? with
+        | none => simp [hg] at hl
+        | some v =>
+          have := (Array.getElem?_eq_some_iff.mp hg).1
+          exact this
+      · have h1 : (s * 256 + b) / 256 = s := by omega
+        have h2 : (s * 256 + b) % 256 = b := by omega
+        simp [hl, h1, h2]
+    · simp at hl
+
+theorem mem_finalRows_iff (A : Dfa) (off : Nat) (row : Nat × Nat × Nat × Nat) :
+    row ∈ finalRows A off ↔ ∃ f, A.isFinal f = true ∧ row = (f + off, 256, 0, 0) := by
+  simp only [finalRows, List.mem_filterMap, List.mem_range]
+  constructor
+  · rintro ⟨f, _, h⟩
+    by_cases hf : A.isFinal f = true
+    · simp only [hf, if_true, Option.some.injEq] at h
+      exact ⟨f, hf, h.symm⟩
+    · simp [hf] at h
+  · rintro ⟨f, hf, rfl⟩
+    refine ⟨f, ?_, by simp [hf]⟩
+    unfold Dfa.isFinal at hf
+    cases hg : A.finals[f]? with
+    | none => simp [hg] at hf
+    | some v => exact (Array.getElem?_eq_some_iff.mp hg).1
+
+/-- The table loaded by `AutomatonChip::load` (as emitted and compared with the real fixed
+columns) has exactly the rows of `inTable`. -/
+theorem mem_tableRows_iff (A : Dfa) (off : Nat) (row : Nat × Nat × Nat × Nat) :
+    row ∈ tableRows A off ↔ inTable A off row := by
+  simp only [tableRows, List.mem_cons, List.mem_append, mem_transRows_iff, mem_finalRows_iff,
+    inTable]
+
+theorem layoutSat_mkRows_iff (A : Dfa) (off : Nat) : ∀ (bytes outs : List Nat) (cur : PCell),
+    (∃ sts, layoutSat A off (mkRows cur sts bytes outs)) ↔
+      (pinOk cur ∧ rowsOk A off cur.1 bytes outs) := by
+  intro bytes
+  induction bytes with
+  | nil =>
+    intro outs cur
+    cases outs with
+    | nil =>
+      constructor
+      · rintro ⟨sts, h⟩
+        match sts, h with
+        | [z], h =>
+          simp only [mkRows, layoutSat] at h
+          obtain ⟨hp, ⟨l, o, _, hl, ho, hpl, hpo, hin⟩, _, hz⟩ := h
+          simp only [Option.some.injEq] at hl ho
+          subst hl; subst ho
+          simp only [pinOk] at hz
+          subst hz
+          exact ⟨hp, by simpa [rowsOk] using hin⟩
+        | [], h => simp [mkRows, layoutSat] at h
+        | _ :: _ :: _, h => simp [mkRows, layoutSat] at h
+      · rintro ⟨hp, h⟩
+        refine ⟨[0], ?_⟩
+        simp only [mkRows, layoutSat]
+        exact ⟨hp, ⟨(256, .fixed 256), (0, .fixed 0), by simp [pinOk], by simp [pinOk],
+          by simp [pinOk], by simp [pinOk], by simp [pinOk], by simpa [rowsOk] using h⟩,
+          by simp [pinOk], by simp [pinOk]⟩
+    | cons o os =>
+      constructor
+      · rintro ⟨sts, h⟩
+        match sts, h with
+        | [], h => simp [mkRows, layoutSat] at h
+        | [_], h => simp [mkRows, layoutSat] at h
+        | _ :: _ :: _, h => simp [mkRows, layoutSat] at h
+      · rintro ⟨_, h⟩
+        simp [rowsOk] at h
+  | cons b bs ih =>
+    intro outs cur
+    cases outs with
+    | nil =>
+      constructor
+      · rintro ⟨sts, h⟩
+        match sts, h with
+        | [], h => simp [mkRows, layoutSat] at h
+        | [_], h => simp [mkRows, layoutSat] at h
+        | _ :: _ :: _, h => simp [mkRows, layoutSat] at h
+      · rintro ⟨_, h⟩
+        simp [rowsOk] at h
+    | cons o os =>
+      constructor
+      · rintro ⟨sts, h⟩
+        match sts, h with
+        | [], h => simp [mkRows, layoutSat] at h
+        | s' :: sts, h =>
+          simp only [mkRows] at h
+          have hne : ∃ r rest, mkRows (s', Pin.free) sts bs os = r :: rest := by
+            cases hm : mkRows (s', Pin.free) sts bs os with
+            | nil => simp [hm, layoutSat] at h
+            | cons r rest => exact ⟨r, rest, rfl⟩
+          obtain ⟨r, rest, hm⟩ := hne
+          have hr : r.state = (s', Pin.free) := by
+            cases sts with
+            | nil => simp [mkRows] at hm
+            | cons z zs =>
+              cases bs with
+              | nil =>
+                cases os with
+                | nil =>
+                  cases zs with
+                  | nil => simp only [mkRows, List.cons.injEq] at hm; rw [← hm.1]
+                  | cons _ _ => simp [mkRows] at hm
+                | cons _ _ => simp [mkRows] at hm
+              | cons b' bs' =>
+                cases os with
+                | nil => simp [mkRows] at hm
+                | cons o' os' => simp only [mkRows, List.cons.injEq] at hm; rw [← hm.1]
+          rw [hm] at h
+          simp only [layoutSat] at h
+          obtain ⟨hp, ⟨l, o', _, hl, ho, _, _, hin⟩, hrest⟩ := h
+          simp only [Option.some.injEq] at hl ho
+          subst hl; subst ho
+          rw [hr] at hin
+          have := (ih os (s', Pin.free)).mp ⟨sts, by rw [hm]; exact hrest⟩
+          exact ⟨hp, by simp only [rowsOk]; exact ⟨s', hin, this.2⟩⟩
+      · rintro ⟨hp, h⟩
+        simp only [rowsOk] at h
+        obtain ⟨s', hin, hrest⟩ := h
+        obtain ⟨sts, hs⟩ := (ih os (s', Pin.free)).mpr ⟨trivial, hrest⟩
+        refine ⟨s' :: sts, ?_⟩
+        simp only [mkRows]
+        cases hm : mkRows (s', Pin.free) sts bs os with
+        | nil => simp [hm, layoutSat] at hs
+        | cons r rest =>
+          have hr : r.state = (s', Pin.free) := by
+            cases sts with
+            | nil => simp [mkRows] at hm
+            | cons z zs =>
+              cases bs with
+              | nil =>
+                cases os with
+                | nil =>
+                  cases zs with
+                  | nil => simp only [mkRows, List.cons.injEq] at hm; rw [← hm.1]
+                  | cons _ _ => simp [mkRows] at hm
+                | cons _ _ => simp [mkRows] at hm
+              | cons b' bs' =>
+                cases os with
+                | nil => simp [mkRows] at hm
+                | cons o' os' => simp only [mkRows, List.cons.injEq] at hm; rw [← hm.1]
+          simp only [layoutSat]
+          refine ⟨hp, ⟨(b, .copy), (o, .free), by simp [pinOk], by simp [pinOk], by simp [pinOk],
+            by simp [pinOk], by simp [pinOk], ?_⟩, ?_⟩
+          · rw [hr]; exact hin
+          · rw [← hm]; exact hs
+
 end MidnightZK.C19
